@@ -334,6 +334,7 @@ def check(an, rep, tier):
     # row-norm stop criterion uses the accuracy parameter of maxvol_rect
     okt = False
     stop_found = False
+    other_par_found = False
     for lp in loops:
         for st in paths.linear(lp.body):
             if isinstance(st, ast.If) and any(isinstance(b, ast.Break)
@@ -345,11 +346,13 @@ def check(an, rep, tier):
                 e_par = fn.params[1] if len(fn.params) > 1 else 'e'
                 other_par = [p_ for p_ in fn.params[2:] if p_ in names and
                              p_ not in ('dr_min', 'dr_max')]
+                other_par_found = other_par_found or bool(other_par)
                 okt = names.count(e_par) >= 1 and fname in names and \
                     not other_par
     rep.add('P-threshold', 'maxvol.maxvol_rect', 'greedy loop stops on '
-            'F[i] <= e*e', 'ok' if okt else ('violation' if stop_found and
-                                             fname else 'unknown'),
+            'F[i] <= e*e', 'ok' if okt else (
+                'violation' if stop_found and fname and other_par_found
+                else 'unknown'),
             '' if okt else 'the early-stop test of the greedy additions must '
             'compare the largest residual row norm with the accuracy '
             'parameter e of maxvol_rect (not with the tolerance of the inner '
